@@ -7,5 +7,6 @@ CONSTANTS
   Sigs = {}
   JobsOpts = {}
   KillLNums = {}
+  MonCmds = {}
   FgSlots = {}
   StartWith = "none"
